@@ -37,6 +37,10 @@ type concRun struct {
 	abort atomic.Bool
 	done  atomic.Bool
 	stop  atomic.Bool // mid-stream stop (midstop runs)
+	// midstop: the acker of group 1 is inside a valid Ack / the consumer of group 1 has returned / group 1's handle
+	ackerIn        atomic.Int32
+	consumerExited atomic.Int32
+	g1             atomic.Value
 	mode  string
 }
 
@@ -110,16 +114,31 @@ func caseConc(res *caseResult, idx int, dir string, seed int64, tier string) {
 	stopAt := c.n/3 + rnd.Int63n(c.n/3)
 	if midstop {
 		c.mode = "local-midstop"
-		var calls atomic.Uint64
 		seam.InstallQueuePages(seam.Direct{}, &seam.Observer{PageWrite: func(path, kind string, offset, length int) {
 			if kind != "u64" || !strings.Contains(path, "/cg/") {
 				return
 			}
-			if n := calls.Add(1); mix(n)%5 == 0 {
-				time.Sleep(time.Duration(5+mix(n+7)%40) * time.Microsecond)
-			} else {
-				runtime.Gosched()
+			// the store of the consumed position inside an Ack of group 1, once the stream is past stopAt: stop
+			// everybody here and hold this store back until the consumer has done its last consume (bounded) -
+			// the directed interleaving "consume inside an ack"
+			if g1, ok := c.g1.Load().(queue.ConsumerGroup); ok && offset == 0 && c.ackerIn.Load() == 1 && !c.stop.Load() &&
+				strings.Contains(path, "/cg/1/") && g1.ConsumedSeq() >= stopAt {
+				if !calledFromAck() {
+					runtime.Gosched()
+					return
+				}
+				c.stop.Store(true)
+				res.count("conc.midstop_stopped_inside_ack", 1)
+				deadline := time.Now().Add(3 * time.Millisecond)
+				for c.consumerExited.Load() == 0 && time.Now().Before(deadline) {
+					time.Sleep(20 * time.Microsecond)
+				}
+				if c.consumerExited.Load() > 0 {
+					res.count("conc.midstop_consumer_finished_inside_ack", 1)
+				}
+				return
 			}
+			runtime.Gosched()
 		}})
 		defer seam.Restore()
 	}
@@ -142,6 +161,7 @@ func caseConc(res *caseResult, idx int, dir string, seed int64, tier string) {
 		}
 		groups[i] = g
 	}
+	c.g1.Store(groups[0])
 	var wg sync.WaitGroup
 	var aux sync.WaitGroup
 	producerDone := make(chan struct{})
@@ -171,11 +191,11 @@ func caseConc(res *caseResult, idx int, dir string, seed int64, tier string) {
 
 	// --- consumers / ackers ---
 	for gi, g := range groups {
-		g := g
+		g, gi := g, gi
 		who := fmt.Sprintf("group%d", gi+1)
 		grnd := rand.New(rand.NewSource(rnd.Int63()))
 		arnd := rand.New(rand.NewSource(rnd.Int63()))
-		if c.mode == "local" {
+		if strings.HasPrefix(c.mode, "local") {
 			hcap := 64
 			if midstop {
 				hcap = int(c.n)
@@ -187,7 +207,12 @@ func caseConc(res *caseResult, idx int, dir string, seed int64, tier string) {
 				defer close(handoff)
 				defer c.guard("consumer")
 				debug.SetPanicOnFault(true)
-				for expect := int64(0); expect < c.n && !c.abort.Load() && !c.stop.Load(); expect++ {
+				if gi == 0 {
+					defer c.consumerExited.Add(1)
+				}
+				last := false
+				for expect := int64(0); expect < c.n && !c.abort.Load() && !last; expect++ {
+					last = c.stop.Load() // after a mid-stream stop: one more consume, then return
 					if g.Pending() == 0 {
 						res.count("conc.consume_issued_with_nothing_pending", 1)
 					}
@@ -252,7 +277,11 @@ func caseConc(res *caseResult, idx int, dir string, seed int64, tier string) {
 					if g.ConsumedSeq() > s {
 						res.count("conc.ack_while_consumer_ahead", 1)
 					}
+					if midstop && gi == 0 {
+						c.ackerIn.Store(1)
+					}
 					g.Ack(s)
+					c.ackerIn.Store(0)
 					if a := g.AcknowledgedSeq(); a != s {
 						c.violate("C06/conc/valid-ack-not-applied", "%s: Ack(%d) (handed out by Consume, last ack %d) left ack=%d", who, s, last, a)
 						return
@@ -431,17 +460,6 @@ func caseConc(res *caseResult, idx int, dir string, seed int64, tier string) {
 			time.Sleep(5 * time.Millisecond)
 		}
 	}()
-	if midstop {
-		go func() {
-			for !c.done.Load() && !c.abort.Load() {
-				if groups[0].ConsumedSeq() >= stopAt {
-					c.stop.Store(true)
-					return
-				}
-				time.Sleep(20 * time.Microsecond)
-			}
-		}()
-	}
 	finished := make(chan struct{})
 	go func() { wg.Wait(); close(finished) }()
 	select {
@@ -532,5 +550,21 @@ func caseConc(res *caseResult, idx int, dir string, seed int64, tier string) {
 func (r *caseResult) nontrivialIf(cond bool, key string) {
 	if cond {
 		r.nontrivial(key)
+	}
+}
+
+// calledFromAck reports whether the current goroutine is inside consumerGroup.Ack.
+func calledFromAck() bool {
+	pcs := make([]uintptr, 16)
+	n := runtime.Callers(2, pcs)
+	frames := runtime.CallersFrames(pcs[:n])
+	for {
+		fr, more := frames.Next()
+		if strings.HasSuffix(fr.Function, "(*consumerGroup).Ack") {
+			return true
+		}
+		if !more {
+			return false
+		}
 	}
 }
